@@ -174,6 +174,28 @@ def run(ctx):
                         break
             finally:
                 pr.destroy()
+    # a cycle that closes on a target which `redo-stamp` has already marked (checked, checksum unchanged) in this run:
+    # the mark must not make the request for it look like a request for a finished target
+    if not viol:
+        for entry, j in (("a", "-j1"), ("a", "-j3"), ("b", "-j1"), ("top", "-j1")):
+            pr = Project()
+            try:
+                pr.write("src", "1\n")
+                pr.write("a.do", "redo-ifchange src\ncat src\nredo-stamp <src\nredo-ifchange b\n")
+                pr.write("b.do", "redo-ifchange src\necho b\n")
+                pr.write("top.do", "redo-ifchange a\necho top\n")
+                r0 = sched.run_cmds(pr, [["redo", "top"]], timeout=30)[0]
+                pr.write("b.do", "redo-ifchange a\necho b\n")
+                r = sched.run_cmds(pr, [["redo", j, entry]], timeout=15)[0]
+                stats["parallel_runs"] += 1
+                stats["stamped_cycle_runs"] = stats.get("stamped_cycle_runs", 0) + 1
+                if r0.rc != 0 or r.timed_out or r.rc == 0 or "panicked" in r.err or ("cyclic dependency" not in r.err and " 208" not in r.err):
+                    pth = write_replay("C12", "stamped-cycle-%s%s" % (entry, j), dict(kind="impl-monitor", argv=["redo", j, entry], rc=r.rc, setup_rc=r0.rc, stderr=r.err[-1500:],
+                        scenario="a.do: redo-ifchange src; cat src; redo-stamp <src; redo-ifchange b.  b.do: redo-ifchange src.  Built once; b.do edited to `redo-ifchange a`; rebuild"))
+                    viol.append(Violation("C12", pth, "cycle a -> b -> a where a was already marked by redo-stamp in this run (`redo %s %s`): %s" % (j, entry, "hang" if r.timed_out else "exit 0" if r.rc == 0 else "setup failed" if r0.rc else "panic" if "panicked" in r.err else "non-zero but no cyclic dependency identified")))
+                    break
+            finally:
+                pr.destroy()
     # a cycle that closes through an out-of-band (redo-unlocked) rebuild back to the target whose lock the caller holds
     if not viol:
         for j in ("-j1", "-j3"):
